@@ -160,17 +160,22 @@ impl NodeIdentity {
         // Deterministically derive key material via HKDF-SHA3
         use saorsa_pqc::{HkdfSha3_256, api::traits::Kdf};
 
-        // ML-DSA-65 public/secret key sizes (bytes)
-        const ML_DSA_PUB_LEN: usize = 1952;
-        const ML_DSA_SEC_LEN: usize = 4032;
+        use saorsa_pqc::dsa_traits::{KeyGen, SerDes};
 
-        let mut derived = vec![0u8; ML_DSA_PUB_LEN + ML_DSA_SEC_LEN];
-        HkdfSha3_256::derive(seed, None, b"saorsa-node-identity-seed", &mut derived).map_err(
+        // Expand the seed into the 32-byte ML-DSA key-generation seed and run the
+        // real (deterministic) FIPS 204 key generation on it. The two halves of a
+        // key pair cannot be expanded independently: a public key that does not
+        // belong to the secret key verifies nothing.
+        let mut keygen_seed = [0u8; 32];
+        HkdfSha3_256::derive(seed, None, b"saorsa-node-identity-seed", &mut keygen_seed).map_err(
             |_| P2PError::Identity(IdentityError::InvalidFormat("HKDF expand failed".into())),
         )?;
-
-        let pub_bytes = &derived[..ML_DSA_PUB_LEN];
-        let sec_bytes = &derived[ML_DSA_PUB_LEN..];
+        let (derived_public, derived_secret) =
+            saorsa_pqc::ml_dsa_65::KG::keygen_from_seed(&keygen_seed);
+        let pub_bytes = derived_public.into_bytes();
+        let sec_bytes = derived_secret.into_bytes();
+        let pub_bytes = &pub_bytes[..];
+        let sec_bytes = &sec_bytes[..];
 
         // Construct keys from bytes; these constructors accept byte slices in our integration
         let public_key =
